@@ -120,19 +120,7 @@ def common_len(a, b):
 
 
 
-KINDS = {
-    # kind: (simulator type, model description without "public"/"params")
-    "TB": ("time-based", {"attrs": ["x", "y", "z"]}),
-    "TB_ANY": ("time-based", {"attrs": ["x"], "any_inputs": True}),
-    "EV": ("event-based", {"attrs": ["x", "y", "z"]}),
-    "EV_ANY": ("event-based", {"attrs": ["x"], "any_inputs": True}),
-    "HY": ("hybrid", {"attrs": ["x", "y", "z"], "trigger": ["x"], "non-persistent": ["z"]}),
-    "HY_PLAIN": ("hybrid", {"attrs": ["x", "y", "z"]}),
-    "HY_NT": ("hybrid", {"attrs": ["x", "y", "z"], "non-trigger": ["y", "z"], "persistent": ["x", "y"], "non-persistent": ["z"]}),
-    "HY_ANY": ("hybrid", {"attrs": ["x", "y"], "any_inputs": True}),
-    "HY_ANY_T": ("hybrid", {"attrs": ["x", "y"], "any_inputs": True, "trigger": ["x"]}),
-    "HY_ANY_NT": ("hybrid", {"attrs": ["x", "y"], "any_inputs": True, "non-trigger": ["y"], "non-persistent": ["y"]}),
-}
+KINDS = sw.KINDS
 
 
 def kind_roles(kind):
@@ -164,18 +152,6 @@ def kind_roles(kind):
     return (lambda a: a in attrs), is_in, is_tr, is_pers
 
 
-def _install_kind_stubs():
-    for kind, (ty, d) in KINDS.items():
-        meta = {"api_version": "3.0", "type": ty, "models": {"M": {"public": True, "params": [], **copy.deepcopy(d)}}}
-        base = sw.make_stub(True, True, meta)
-
-        def create(self, num, model, **kw):                 # fresh entity ids on every call
-            k = getattr(self, "_n", 0)
-            self._n = k + num
-            return [{"eid": f"E{k + i}", "type": model} for i in range(num)]
-        setattr(sw.MOD, "K_" + kind, type("K_" + kind, (base,), {"create": create}))
-
-
 def _c11_model_kinds(vio, rng, tier):
     """connect() between every ordered pair of ten model kinds (time-based / event-based / hybrid, with and without any_inputs,
     trigger given directly or as the complement of a non-trigger list, persistence given either way) x source attribute x
@@ -184,7 +160,7 @@ def _c11_model_kinds(vio, rng, tier):
     initial data; an accepted pair is registered as a trigger exactly when the destination attribute is a trigger input and
     as pulled/pushed according to the source attribute's persistence."""
     n = 0
-    _install_kind_stubs()
+    sw.install_kind_stubs()
     names = ["x", "y", "z", "q"]
     params = list(itertools.product(names, names, (0, 1), (False, True), (False, True)))
     for sk, dk in itertools.product(KINDS, KINDS):
